@@ -51,7 +51,9 @@ func unhx(s string) []byte {
 	return b
 }
 
-var strPool = []string{"a", "b", "recoveryrequest", "t", "k1", "k2", "0", "", "héllo", "日本", " ", "a\"b", "<&>", "x\\y", "😀", "a b", "\n", "a-b", "-", "t-"}
+var strPool = []string{"a", "b", "recoveryrequest", "t", "k1", "k2", "0", "", "héllo", "日本", " ", "a\"b", "<&>", "x\\y", "😀", "a b", "\n", 
+	"\x00", "a\x07b", "\x0b\x7f", "\U000e0001", "\u2028x", "recovery", "request7", // control characters, non-printable runes, strings whose concatenations coincide
+	"a-b", "-", "t-"}
 
 func genReceiver(r *rng, n int, tier string, emit func(string)) {
 	h := func(s string) string { return hx([]byte(s)) }
@@ -62,6 +64,8 @@ func genReceiver(r *rng, n int, tier string, emit func(string)) {
 		"hist 1 ; bad 0 ; bad 1 ; bad 2 ; send " + h("t") + " " + h("k") + " 00ff10 ; bad 3 ; eof 0 ; bad 4 ; kerr ; send " + h("t") + " " + h("k") + " 00",
 		"hist 1 ; send " + h("t") + " " + h("k") + " " + h("old") + " ; send " + h("t") + " " + h("k") + " " + h("new") + " ; send " + h("u") + " " + h("k") + " " + h("other") + " ; eof 0",
 		"hist 1 ; rsend " + h("t") + " " + h("k") + " 01 100 ; rack " + h("t") + " " + h("k") + " - -50 ; rsend " + h("t") + " " + h("j") + " 02 0 ; rsend " + h("t") + " " + h("j") + " 03 -9 ; eof 0 ; rsend " + h("t") + " " + h("k") + " 04 -100000",
+		"hist 2 ; wm 0:0:5:1 1:0:0:0 ; send " + h("t") + " " + h("k") + " " + h("p") + " ; eof 1 ; ack " + h("t") + " " + h("k") + " - ; eof 0",
+		"hist 1 ; ack " + h("t") + " " + h("k") + " - ; rnoack " + h("t") + " " + h("k") + " 0a0b ; send " + h("t") + " " + h("j") + " 01 ; rnopl " + h("t") + " " + h("j") + " 0 ; bad 0 ; eof 0 ; rack " + h("t") + " " + h("k") + " - 0 ; rnoack " + h("t") + " " + h("k") + " 0c ; rnopl " + h("t") + " " + h("k") + " 0",
 		"assign ; 0 0 10 0 ; 1 0 50000 0 ; 2 0 50001 0 ; 3 100 60000 0 ; 4 100 50100 0 ; 5 100 50101 0 ; 6 7 9 1",
 	} {
 		emit(c)
@@ -96,6 +100,15 @@ func genReceiver(r *rng, n int, tier string, emit func(string)) {
 			keys[j] = strPool[r.intn(len(strPool))]
 		}
 		ops := []string{fmt.Sprintf("hist %d", np)}
+		if r.chance(30) {
+			// the assignment is built first; watermark queries may fail or find the partition empty
+			wm := "wm"
+			for p := 0; p < np; p++ {
+				low := r.pick(0, 0, 3)
+				wm += fmt.Sprintf(" %d:%d:%d:%s", p, low, low+r.pick(0, 0, 4, 100), b01(r.chance(35)))
+			}
+			ops = append(ops, wm)
+		}
 		nops := r.intn(maxOps) + 1
 		eofBias := r.intn(25) + 3
 		for j := 0; j < nops; j++ {
@@ -117,6 +130,12 @@ func genReceiver(r *rng, n int, tier string, emit func(string)) {
 			case x < 65:
 				// records of other instances, with clocks that disagree (past, far past, future)
 				ops = append(ops, fmt.Sprintf("%s %s %s %s %d", r.pickS("rsend", "rsend", "rack"), t, k, hx([]byte{byte(j), 7}), r.pick(0, -5, -100000, 100000, 3600, -1, 400000000)))
+			case x < 68:
+				if r.chance(50) {
+					ops = append(ops, fmt.Sprintf("rnoack %s %s %s", t, k, hx([]byte{byte(j), 9})))
+				} else {
+					ops = append(ops, fmt.Sprintf("rnopl %s %s %s", t, k, b01(r.chance(40))))
+				}
 			case x < 72:
 				ops = append(ops, fmt.Sprintf("bad %d", r.intn(5)))
 			case x < 72+eofBias:
@@ -174,7 +193,8 @@ func execReceiver(input string) string {
 	sp := newScriptedProducer()
 	sender := message.VerifNewKafkaMessageSender(kafkaproducer.VerifNewKafkaProducer(sp, topic), topic)
 	var delivered []string
-	recv := message.VerifNewKafkaMessageReceiver(newScriptedConsumer(), topic, np, func(m message.Message) []error {
+	recvClient := newScriptedConsumer()
+	recv := message.VerifNewKafkaMessageReceiver(recvClient, topic, np, func(m message.Message) []error {
 		delivered = append(delivered, fmtMsg(m))
 		return nil
 	})
@@ -182,6 +202,23 @@ func execReceiver(input string) string {
 	var opsF [][]string
 	for _, seg := range segs[1:] {
 		if f := strings.Fields(seg); len(f) > 0 {
+			if f[0] == "wm" {
+				// the receiver builds its partition assignment first, against scripted watermark queries (p:low:high:err)
+				var parts []kafka.PartitionMetadata
+				for _, w := range f[1:] {
+					q := strings.Split(w, ":")
+					if len(q) != 4 {
+						return "bad-input"
+					}
+					pp, _ := strconv.ParseInt(q[0], 10, 32)
+					recvClient.low[int32(pp)], _ = strconv.ParseInt(q[1], 10, 64)
+					recvClient.high[int32(pp)], _ = strconv.ParseInt(q[2], 10, 64)
+					recvClient.wmErr[int32(pp)] = q[3] == "1"
+					parts = append(parts, kafka.PartitionMetadata{ID: int32(pp)})
+				}
+				recv.VerifBuildPartitionAssignments(parts)
+				continue
+			}
 			opsF = append(opsF, f)
 		}
 	}
@@ -253,6 +290,18 @@ func execReceiver(input string) string {
 			w.Updated = time.Unix(1700000000+d, 0).UTC()
 			v, _ := json.Marshal(w)
 			recv.VerifProcessEvent(&kafka.Message{TopicPartition: kafka.TopicPartition{Topic: &topic}, Key: []byte(w.Message.MessageType + "-" + w.Message.Key), Value: v})
+		case "rnoack", "rnopl":
+			// records of other writers that omit optional JSON fields
+			ty, _ := json.Marshal(string(unhx(f[1])))
+			ky, _ := json.Marshal(string(unhx(f[2])))
+			var v []byte
+			if f[0] == "rnoack" {
+				pl, _ := json.Marshal(unhx(f[3]))
+				v = []byte(fmt.Sprintf(`{"message":{"messagetype":%s,"key":%s,"payload":%s}}`, ty, ky, pl))
+			} else {
+				v = []byte(fmt.Sprintf(`{"message":{"messagetype":%s,"key":%s},"updated":"2023-11-14T22:13:20Z","ack":%v}`, ty, ky, f[3] == "1"))
+			}
+			recv.VerifProcessEvent(&kafka.Message{TopicPartition: kafka.TopicPartition{Topic: &topic}, Key: []byte(string(unhx(f[1])) + "-" + string(unhx(f[2]))), Value: v})
 		case "bad":
 			var v []byte
 			switch f[1] {
